@@ -135,6 +135,53 @@ func c06a(c *Ctx) {
 }
 
 func c06b(c *Ctx) {
+	// the hoisting tables live for the whole file: they are made where the parser is made and at
+	// the start of ParseProgram, and from then on only grow (a table re-made between two
+	// statements forgets which contents already have a label: the same text gets two)
+	{
+		tables := map[string]bool{"inlineTexts": true, "inlineTextsSet": true, "inlineTextCounts": true, "inlineMovements": true, "inlineMovementsSet": true, "inlineMovementCounts": true}
+		pp := c.Fn("parser.Parser.ParseProgram")
+		top := c.Fn("parser.Parser.parseTopLevelStatement")
+		n := 0
+		for _, fn := range c.W.FuncsOf("parser") {
+			if isTestFunc(c.W, fn) {
+				continue
+			}
+			var flds []string
+			for fld := range tables {
+				flds = append(flds, fld)
+			}
+			sort.Strings(flds)
+			for _, fld := range flds {
+				for si, st := range storesToField(fn, "parser", "Parser", fld) {
+					if _, fresh := rootValue(st.Addr).(*ssa.Alloc); fresh {
+						continue // the parser under construction (New, NewLintParser)
+					}
+					n++
+					key := fmt.Sprintf("hoisting-table/%s/%s#%d", fld, c.W.FuncKey(fn), si)
+					v := c.term(fn, st.Val)
+					switch {
+					case strings.HasPrefix(v, "builtin:append($0."+fld):
+						c.OK(key, c.W.Pos(st.Pos()), "the table grows")
+					case fn == pp:
+						// re-made at the start of a parse: before the statement loop
+						before := true
+						if top != nil {
+							for _, call := range callsToIn(pp, top) {
+								if canReach(call.(ssa.Instruction), st) {
+									before = false
+								}
+							}
+						}
+						c.Check(before && loopHeaders(fn)[st.Block()] == nil, key, c.W.Pos(st.Pos()), "the table is (re)made before the first statement is parsed", "ParseProgram re-makes the hoisting table "+fld+" after statements were parsed: contents that already have a label would get a second one")
+					default:
+						c.Bad(key, c.W.Pos(st.Pos()), fn.Name()+" replaces the hoisting table "+fld+" ("+pretty(v)+"): identical inline content before and after would no longer share one label (and counters / lists would restart)")
+					}
+				}
+			}
+		}
+		c.Check(n >= 4, "hoisting-table/stores", "-", fmt.Sprintf("%d stores to the hoisting tables", n), fmt.Sprintf("expected at least 4 stores to the hoisting tables, found %d", n))
+	}
 	for _, s := range []struct {
 		fn, set, counts, list, labelFn, nodeType, keyKind string
 	}{
@@ -169,6 +216,11 @@ func c06b(c *Ctx) {
 			_, kf := c.withFields(core, keyT)
 			ok := kf != nil && strings.HasSuffix(kf["value"], ".text.Literal") && strings.HasSuffix(kf["strType"], ".stringType") && strings.TrimSuffix(kf["value"], ".text.Literal") == strings.TrimSuffix(kf["strType"], ".stringType")
 			c.Check(ok, name+"/key", c.W.Pos(lk.Pos()), "dedup key = (text content, string type) of the record", "dedup key is "+pretty(keyT)+", expected {value: record.text.Literal, strType: record.stringType}")
+			// ... and nothing besides: identical content of the same type shares one label whatever
+			// command, script or position it is used in
+			if st, isStruct := lk.Index.Type().Underlying().(*types.Struct); isStruct {
+				c.Check(st.NumFields() == 2, name+"/key-has-two-components", c.W.Pos(lk.Pos()), "the dedup key has exactly the two components", fmt.Sprintf("the dedup key has %d components: besides content and string type something else keeps identical texts apart (they would get separate labels)", st.NumFields()))
+			}
 			if kf != nil {
 				elem = strings.TrimSuffix(kf["value"], ".text.Literal")
 			}
@@ -759,6 +811,47 @@ func c06c(c *Ctx) {
 		}
 		for _, s := range sources {
 			visit(s)
+		}
+		// side accumulators: data gathered into an accumulator that is merged into another one
+		// later keeps its place only if nothing is merged into that other one in between
+		// (`elifData.add(x)` … `data.add(elseData)` … `data.add(elifData)` numbers the else texts first)
+		{
+			type addCall struct {
+				in        ssa.Instruction
+				recv, arg ssa.Value
+			}
+			var adds []addCall
+			for _, ci := range callsToIn(fn, addFn) {
+				a := ci.Common().Args
+				if len(a) == 2 {
+					adds = append(adds, addCall{ci.(ssa.Instruction), a[0], a[1]})
+				}
+			}
+			for _, m := range adds {
+				side, isAlloc := m.arg.(*ssa.Alloc)
+				if !isAlloc || !isImpDataPtr(side.Type()) {
+					continue
+				}
+				for _, x := range adds {
+					if x.recv != ssa.Value(side) {
+						continue
+					}
+					w, found := existsPath(pathQuery{from: after(x.in), avoid: func(y ssa.Instruction) bool { return y == m.in }, edgeOK: notErrorEdge, target: func(y ssa.Instruction) bool {
+						for _, o := range adds {
+							if o.in == y && o.recv == m.recv && o.arg != m.arg {
+								return true
+							}
+						}
+						return false
+					}})
+					c.Check(!found, fmt.Sprintf("%s/side-accumulator@%d/merged-before-later-data", c.W.FuncKey(fn), c.T(fn).callOrd[m.in.(ssa.CallInstruction)]), c.W.Pos(m.in.Pos()), "a side accumulator is merged before anything later is merged into its target", func() string {
+						if !found {
+							return ""
+						}
+						return "inline data gathered into a side accumulator at " + c.W.Pos(x.in.Pos()) + " is merged only here, after later data was already merged at " + c.W.Pos(w.Pos()) + ": generated labels would not be numbered in order of first appearance"
+					}())
+				}
+			}
 		}
 		reach := func(from ssa.Value) (map[*ssa.Return]bool, bool) {
 			rs := map[*ssa.Return]bool{}
